@@ -62,6 +62,18 @@ CLAIMED = {
         "words, sentinels in dead slots and process crashes (unsafe-precondition aborts are attributed to the stimulus); "
         "UB without observable effect is out of reach. Capacities above 4 are covered by random histories, not exhaustively.",
    design="5/C06"),
+ "C07": dict(
+   text="Heap.tla states the discipline: every trace specification of every component conjoins a heap predicate over the counters a counting "
+        "global allocator measured strictly inside each call (steady-state operations: no allocation, reallocation or free; constructors, Fork::by_rc, "
+        "boxed-slice conversions and the bus exempt; Processor::process judged once the same graph/output was processed before). This check runs the "
+        "pipelines of ALL families concurrently (their TLC-enumerated and random stimuli on the real code: ring buffers, fork, buffered, sample/frame/"
+        "slice operations, adaptor terms, converter, graph and nodes, rms, envelope, oscillators, sinc, windows) and reports the events on which only the "
+        "heap conjunct fails. For the bus, MC_Heap model-checks that under lock-step pulling the backlog never exceeds one frame and is empty after every "
+        "round, emits all lock-step schedules, and Trace_Bus validates backlog <= 1 and a heap footprint that stops growing after round 1.",
+   note="Trusted: TLC, the counting allocator and the harness's discipline of allocating its own buffers before the measured window. Absence of allocation "
+        "is established on the executions run (every operation kind, many values/lengths/orders), not proved value-independent. Functional rejections "
+        "met on the way are left to the component's own property.",
+   design="5/C07"),
  "C08": dict(
    text="Converter.tla models the rate converter at two layers: the code's accumulator loop over Floor / Linear interpolators, from_iter's look-ahead, "
         "the setters and MulHz (layer 2), and the closed-form source position P_n = sum of ratios (layer 1). TLC checks Position, FloorOut, LinearOut, "
